@@ -555,11 +555,11 @@ func c11PerTableState(c *Ctx) {
 	// fields written while parsing
 	written := map[*types.Var][]string{}
 	pkg := m.pkg(aml)
-	for _, fn := range m.Funcs {
+	for _, fn := range m.scanFuncs() {
 		if fn.Pkg != pkg || fn == ctor || fn == initM || fn == reset {
 			continue
 		}
-		for _, b := range fn.Blocks {
+		for _, b := range m.blocksOf(fn) {
 			for _, in := range b.Instrs {
 				if s, ok := in.(*ssa.Store); ok {
 					p := accessPath(s.Addr)
